@@ -67,6 +67,15 @@ PROPS = {
                 "chunk-boundary hook (context-bounded, <= 2 preemptions) and 16 free-running threads x R rounds with mixed entry points and chunk counts; every "
                 "concurrent output hash must equal the sequential reference recorded in the same trace (decided by TLC); every case is non-trivial",
     },
+    "C12": {
+        "driver": "c12", "level": "model_checking",
+        "gen": {"module": "MC_Ctor.tla", "cfg": "MC_Ctor.cfg", "cfg_quick": "MC_Ctor_quick.cfg", "args": ["-maxSetSize", "20000000"], "timeout": 2400},
+        "rule": "expression trees of depth <= 2 over the public constructors (Dft, Butterfly1..32, Radix4/Radix3 new and new_with_base, MixedRadix(Small), "
+                "GoodThomasAlgorithm(Small), RadersAlgorithm, BluesteinsAlgorithm, planner-produced leaves) enumerated by TLC from MC_Ctor.tla under the "
+                "arithmetic preconditions; each built in both directions for GF(p) (exact DFT), f64 and f32 (guard pages) and put through the C01/C07/C08/C09 "
+                "observations; every tree is non-trivial (at least one wrapper node)",
+        "variants": [{"name": "default"}, {"name": "relcheck", "profile": "relcheck", "thorough_only": True}],
+    },
     "C13": {
         "driver": "c13", "level": "model_checking", "mc": [MC_LAYER],
         "rule": "harness builds per cargo feature set x run-time capability masks (H1): NewPlanner events for every planner kind x {f32,f64,custom} judged by the "
